@@ -5,10 +5,11 @@ import Paho.Driver.Codec
 import Paho.Driver.Decode
 import Paho.Driver.Reader
 import Paho.Driver.LF
+import Paho.Driver.Dispatch
 open Paho.Driver
 
 def drivers : List (String × Drv) :=
-  [("trie", trieDrv), ("mid", midDrv), ("validate", validateDrv), ("session", sessionDrv), ("session-inv", sessionInvDrv), ("props", propsDrv), ("codec", codecDrv), ("decode", decodeDrv), ("reader", readerDrv), ("loopforever", lfDrv)]
+  [("trie", trieDrv), ("mid", midDrv), ("validate", validateDrv), ("session", sessionDrv), ("session-inv", sessionInvDrv), ("props", propsDrv), ("codec", codecDrv), ("decode", decodeDrv), ("reader", readerDrv), ("loopforever", lfDrv), ("dispatch", dispatchDrv)]
 
 def main (args : List String) : IO UInt32 := do
   match args with
